@@ -462,7 +462,8 @@ def plan(tier, seed, workdir):
             body = CORE.replace('{shape}', shape).replace('{{}}', '{}')
             body += hgen.harness('rt', 'ii: int, b: bool, s1: int', ['0 <= s1 < 19', '0 <= ii < 7'], core_call=f'core_rt(ii, b, s1, {indent})')
             path = hgen.write_module(workdir, f'c14_rt{n}_i{indent}', body, stub=False)
-            hgen.ch_tasks(p, path, 'rt', timeout, twin_timeout=60, est=60, family='E1 round trip', shape=shape, indent=indent)
+            hgen.ch_tasks(p, path, 'rt', timeout, twin_timeout=60, est=60, family='E1 round trip', shape=shape, indent=indent,
+                          enum={'ii': list(range(7)), 'b': [False, True], 's1': list(range(19))})
     p.extra_coverage['whole_text_steps_found'] = steps
     p.rule = ('per whole-text regex step found in the live AST: one string-token lemma and one number-token lemma (z3; sat models decoded and '
               'replayed through the real functions); per value shape one CrossHair round-trip condition')
